@@ -106,12 +106,15 @@ Definition send_key (cfg : config) (st : cstate) (level : Z) (key : bytes) (now 
 (* the configured security algorithm: flavours of the three documented signatures.
    1: algo(seed)   2: algo(seed, params)   3: algo(level, seed, params)   4: callable object without __code__
    (gets all three)   5: algo(seed, params) whose body has a local variable called level   6: algo(seed) whose body has locals
-   called level and params (only declared parameters count).  The executable instance computes  reversed(seed) ++ extras. *)
+   called level and params (only declared parameters count)   7: algo(seed, params) that fails: it raises the application's own
+   exception (algo_fails): the call ends with that error and nothing more is sent.
+   The executable instance computes  reversed(seed) ++ extras. *)
+Definition algo_fails (cfg : config) : bool := algo cfg =? 7.
 Definition algo_run (cfg : config) (seed : bytes) (level : Z) : bytes * ev :=
   let prm := algo_prm cfg in
   let pb := if prm <? 0 then 0 else prm mod 256 in
   if (algo cfg =? 1) || (algo cfg =? 6) then (rev seed, EvALGO seed (-1) (-1))
-  else if (algo cfg =? 2) || (algo cfg =? 5) then (rev seed ++ [pb], EvALGO seed (-1) prm)
+  else if (algo cfg =? 2) || (algo cfg =? 5) || (algo cfg =? 7) then (rev seed ++ [pb], EvALGO seed (-1) prm)
   else (rev seed ++ [level mod 256; pb], EvALGO seed level prm).
 
 Definition seed_of (sd : sdata) : bytes := match sd with _ :: _ :: _ :: seed => seed | _ => [] end.
@@ -128,8 +131,10 @@ Definition unlock_security_access (cfg : config) (st : cstate) (level : Z) (para
       if negb (Nat.eqb (List.length seed) 0) && all_zero seed then (COk (Some (r, sd)), st1, t1, s1, tr1)
       else
         let '(key, e) := algo_run cfg seed level in
-        let '(res2, st2, t2, s2, tr2) := send_key cfg st1 level key t1 s1 in
-        (res2, st2, t2, s2, tr1 ++ e :: tr2)
+        if algo_fails cfg then (CErr ERuntime None, st1, t1, s1, tr1 ++ [e])
+        else
+          let '(res2, st2, t2, s2, tr2) := send_key cfg st1 level key t1 s1 in
+          (res2, st2, t2, s2, tr1 ++ e :: tr2)
     end.
 
 (* ---- TesterPresent / ECUReset -------------------------------------------------------------------- *)
